@@ -379,7 +379,7 @@ func strLenGen(thorough bool) *rapid.Generator[int] {
 		rapid.SampledFrom([]int{0, 1, 127, 128, 129, 255, 256}),
 		// rarely (1 value in 40): the second boundary of the length prefix
 		rapid.OneOf(rapid.IntRange(0, 8), rapid.IntRange(0, 8), rapid.IntRange(0, 8), rapid.IntRange(0, 8), rapid.IntRange(0, 8), rapid.IntRange(0, 8), rapid.IntRange(0, 8),
-			rapid.SampledFrom([]int{16383, 16384, 16385})),
+			rapid.SampledFrom([]int{4095, 4096, 4097, 16383, 16384, 16385, 65535, 65536, 65537})),
 	}
 	return rapid.OneOf(gens...)
 }
